@@ -4,7 +4,7 @@ import json
 META = {
     "level": "model_checking",
     "technique": "TLA+ relation DialOK evaluated by TLC on every address the real filter_valid_addrs lets through (exhaustively enumerated address shapes); TLA+ model of the server's admission (one dial-back per peer, throttling) model-checked; traces of the real autonat v1 Behaviour (real request-response handlers, real wire codec) validated by TLC against the property-level server spec",
-    "text": "Address clause: every demanded address of 1..3 (4 thorough) components over an 11-letter alphabet (observed/other IPv4, other IPv6, dns4, tcp, udp, quic, /p2p requester/other, /p2p-circuit), for IPv4 and IPv6 observations, plus random address lists, is passed through the real filter_valid_addrs; TLC evaluates DialOK (an IP component exists, all IP components equal the observed IP, no DNS host, no relay hop, every /p2p is the requester and the address ends with it) on every output. Server clause: AutonatServer.tla is model-checked (one dial-back per peer, per-peer and global throttle, canary without the ongoing test); the real v1 Behaviour is driven with crafted DialRequests on real inbound streams, every ToSwarm::Dial it emits is recorded and validated by TLC: addresses DialOK, no second dial-back for a peer while one is running, at most throttle_clients_peer_max / throttle_clients_global_max dial-backs within the throttle period.",
+    "text": "Address clause: every demanded address of 1..3 (4 thorough) components over a 15-letter alphabet (observed/other IPv4, observed/other IPv6, dns, dns4, dns6, dnsaddr, tcp, udp, quic, /p2p requester/other, /p2p-circuit), for IPv4 and IPv6 observations, plus random address lists, is passed through the real filter_valid_addrs; TLC evaluates DialOK (an IP component exists, all IP components equal the observed IP, no DNS host, no relay hop, every /p2p is the requester and the address ends with it) on every output. Server clause: AutonatServer.tla is model-checked (one dial-back per peer, per-peer and global throttle, canary without the ongoing test); the real v1 Behaviour is driven with crafted DialRequests on real inbound streams, outbound connections that are not dial-backs come and go while dial-backs are in flight, every ToSwarm::Dial it emits is recorded and validated by TLC: addresses DialOK, no second dial-back for a peer while one is running, at most throttle_clients_peer_max / throttle_clients_global_max dial-backs within the throttle period.",
     "note": "Throttle period is longer than a run (the window is the whole run); the Swarm is played by the driver.",
     "design_ref": "6/C50",
 }
@@ -54,6 +54,6 @@ def run(c):
     c.distinct_nontrivial = nt
     return c.finish(
         "model_checking",
-        rule="record = (observed address, demanded address list, output of filter_valid_addrs); exhaustive: every single demanded address of length 1..N over 11 component letters x 3 observed addresses; random: lists of 1..4 addresses of up to 8 components; non-trivial = the filter let at least one address through",
+        rule="record = (observed address, demanded address list, output of filter_valid_addrs); exhaustive: every single demanded address of length 1..N over 15 component letters x 3 observed addresses; random: lists of 1..4 addresses of up to 8 components; non-trivial = the filter let at least one address through",
         assumptions=["component values abstracted to observed/other (IP) and requester/other (/p2p)"],
     )
